@@ -176,5 +176,313 @@ def units(tier):
         Unit("C16/check_for_loopcarried_dep/partition", partition_unit, "P", [(KDG, "KernelDG.check_for_loopcarried_dep")]),
         Unit("C16/_extend_path", extend_path_unit, "P", [(KDG, "KernelDG._extend_path")]),
         Unit("C16/lemma/order-insensitive-postprocessing", reduction_lemma, "L", []),
+        Unit("C16/search-call-agreement(worker = sequential)", search_agreement_unit, "P", [(KDG, "KernelDG._extend_path"), (KDG, "KernelDG.check_for_loopcarried_dep")]),
+        Unit("C16/check_for_loopcarried_dep/post-processing(canonical entries)", postprocess_unit, "P", [(KDG, "KernelDG.check_for_loopcarried_dep")]),
         bounded_unit("C16/parallel-equals-sequential", "c16_parallel", [(KDG, "KernelDG.check_for_loopcarried_dep"), (KDG, "KernelDG._extend_path")], timeout=1800),
     ]
+
+
+def postprocess_unit(res):
+    """P: the post-processing loop of check_for_loopcarried_dep (real code, every path of ANY length, ANY number of paths):
+    for every found path p the loop computes the pairs  (line of node i folded back into the first copy, latency of the
+    edge leaving it)  for all nodes but the last, in path order, sums the latencies, SORTS the pair list, uses exactly that
+    sorted list as the de-duplication key, skips the path iff the key was seen, and otherwise records the key and appends
+    (sum, sorted list).  Hence every stored entry is a function of its key alone - whichever rotation of a cycle arrives
+    first - which is what makes the result independent of the order in which workers deliver (lemma below)."""
+    ex = Engine([REPO + "/" + KDG])
+    fn, _ = ex.find_method("KernelDG", "check_for_loopcarried_dep")
+    ex.index_loops(fn)
+    R_ = z3.RealSort()
+    NP, klen, off = z3.Int("n_paths"), z3.Int("klen"), z3.Int("offset_")
+    plen = z3.Function("path_len", I, I)
+    node = z3.Function("path_node", I, I, R_)  # node ids are line numbers (x.1 = separate load stage)
+    lat = z3.Function("edge_latency", R_, R_, R_)
+    SUM = z3.Function("prefix_sum", I, I, R_)  # SUM(p, k) = sum of the first k edge latencies of path p (recursive definition)
+    seen = z3.Function("key_seen", I, z3.BoolSort())  # key of path p already in paths_set when p is processed
+    fold = lambda x, o: z3.If(x >= o, x - o, x)
+    st = {}
+
+    class SkipLoop:
+        def sym_for(self, ex_, s, it, env, cls):
+            return None
+
+    class Sequential:  # the search itself: all_paths is ANY sequence of paths
+        def sym_for(self, ex_, s, it, env, cls):
+            env["all_paths"] = SymSeq(NP, lambda i: PathVal(i))
+            return None
+
+    class PathVal:
+        def __init__(self, p):
+            self.p = p
+
+    class Pairs:  # ghost for lat_path
+        havoc_when_passed = False
+
+        def __init__(self):
+            self.p, self.n, self.ok, self.sorted, self.origin = None, z3.IntVal(0), True, False, None
+
+        def sym_havoc(self, ex_, tag):
+            self.n = z3.FreshInt(tag)
+            return self
+
+        def sym_method(self, ex_, name, args, kw):
+            if name == "append":
+                v = args[0]
+                good = isinstance(v, tuple) and len(v) == 2 and self.p is not None and not self.sorted
+                if good:
+                    i = self.n
+                    ex_.oblige("lat_path/append-is-the-next-pair", z3.And(real_term(v[0]) == fold(node(self.p, i), real_term(st["offset"])),
+                                                                        real_term(v[1]) == lat(node(self.p, i), node(self.p, i + 1))))
+                else:
+                    ex_.oblige("lat_path/append-is-the-next-pair", False)
+                self.n = self.n + 1
+                return None
+            if name == "sort" and not args and not kw:
+                self.sorted = True
+                return None
+            raise Unsupported("lat_path." + name)
+
+        def sym_tuple(self, ex_):
+            return Key(self, self.p, self.n, self.sorted)
+
+        def sym_sorted(self, ex_, key, reverse):
+            if key is not None or reverse:
+                raise Unsupported("sorted(lat_path, key/reverse)")
+            c = Pairs()
+            c.p, c.n, c.sorted, c.origin = self.p, self.n, True, self
+            return c
+
+    class Key:
+        def __init__(self, src, p, n, sorted_):
+            self.src, self.p, self.n, self.sorted = src, p, n, sorted_
+
+    def key_ok(ex_, k, what):
+        good = isinstance(k, Key) and k.sorted and (k.src is st["lat_path"] or k.src.origin is st["lat_path"])
+        ex_.oblige(what + "/key-is-the-sorted-pair-list-of-this-path", z3.And(k.n == plen(k.p) - 1, k.p == st["p"]) if good else False)
+
+    class KeySet:  # ghost for paths_set
+        def sym_havoc(self, ex_, tag):
+            return self
+
+        def sym_contains(self, ex_, item):
+            key_ok(ex_, item, "dedup-test")
+            st["tested"] = st.get("tested", 0) + 1
+            return SBool(seen(st["p"]))
+
+        def sym_method(self, ex_, name, args, kw):
+            if name == "add":
+                key_ok(ex_, args[0], "dedup-add")
+                st["added"] = st.get("added", 0) + 1
+                return None
+            raise Unsupported("paths_set." + name)
+
+    class Deps:  # ghost for loopcarried_deps
+        def sym_havoc(self, ex_, tag):
+            return self
+
+        def sym_method(self, ex_, name, args, kw):
+            if name == "append":
+                v = args[0]
+                good = isinstance(v, tuple) and len(v) == 2 and isinstance(v[1], Pairs) and (v[1] is st["lat_path"] or v[1].origin is st["lat_path"]) and v[1].sorted
+                ex_.oblige("entry/is-(sum, sorted pair list)-of-this-path",
+                           z3.And(real_term(v[0]) == SUM(st["p"], plen(st["p"]) - 1), v[1].n == plen(st["p"]) - 1) if good else False)
+                st["appended"] = st.get("appended", 0) + 1
+                return None
+            if name == "sort":
+                st["final_sort"] = (args, kw)
+                return None
+            raise Unsupported("loopcarried_deps." + name)
+
+    class Edges:
+        def sym_getitem(self, ex_, k):
+            a, b = k
+            return {"latency": SNum(lat(real_term(a), real_term(b)), False)}
+
+    class DG:
+        def sym_getattr(self, ex_, attr):
+            if attr == "edges":
+                return Edges()
+            raise Unsupported("dg." + attr)
+
+    class Outer:
+        def pre_havoc(self, ex_, env):
+            env["paths_set"], env["loopcarried_deps"] = KeySet(), Deps()
+            st["offset"] = env["offset"]
+
+        def on_body_start(self, ex_, env, k):
+            st.update(p=k, tested=0, added=0, appended=0)
+            ex_.assume(plen(k) >= 2)  # a simple path from a node to a different node (all_simple_paths, source != target)
+
+        def on_body_end(self, ex_, env, k):
+            t, a, ap = st["tested"], st["added"], st["appended"]
+            # skipped iff seen; otherwise key recorded and exactly one entry appended
+            ex_.oblige("dedup/skip-iff-key-seen", z3.And(z3.BoolVal(t == 1), z3.If(seen(k), z3.BoolVal(a == 0 and ap == 0), z3.BoolVal(a == 1 and ap == 1))))
+
+    class Inner:
+        def pre_havoc(self, ex_, env):
+            lp = Pairs()
+            lp.p = st["p"]
+            env["lat_path"] = st["lat_path"] = lp
+            # the loop variables survive the loop (the code reads d afterwards): last pair
+            p = st["p"]
+            env["s"], env["d"] = SNum(node(p, plen(p) - 2), False), SNum(node(p, plen(p) - 1), False)
+
+        def on_body_start(self, ex_, env, k):
+            p = st["p"]
+            ex_.assume(SUM(p, k + 1) == SUM(p, k) + lat(node(p, k), node(p, k + 1)))  # instance of the recursive definition
+
+    def inner_inv(ex_, env, k):
+        lp = env.get("lat_path")
+        if isinstance(lp, list) and lp == []:  # (entry: the code's fresh empty list, replaced by its ghost afterwards)
+            return z3.And(k == 0, real_term(env["lat_sum"]) == SUM(st["p"], 0))
+        if not isinstance(lp, Pairs) or lp.sorted:
+            return z3.BoolVal(False)
+        return z3.And(lp.n == k, real_term(env["lat_sum"]) == SUM(st["p"], k))
+
+    ex.loop_hooks[("check_for_loopcarried_dep", 0)] = SkipLoop()
+    ex.loop_hooks[("check_for_loopcarried_dep", 6)] = Sequential()
+    ex.loop_hooks[("check_for_loopcarried_dep", 7)] = Outer()
+    ex.loop_hooks[("check_for_loopcarried_dep", 8)] = Inner()
+    ex.invariants[("check_for_loopcarried_dep", 7)] = lambda ex_, env, k: z3.BoolVal(True)
+    ex.invariants[("check_for_loopcarried_dep", 8)] = inner_inv
+    ex.abstract["create_DG"] = lambda ex_, so, a, kw: DG()
+    ex.abstract["nx.utils.pairwise"] = lambda ex_, so, a, kw: SymSeq(plen(a[0].p) - 1, lambda i: (SNum(node(a[0].p, i), False), SNum(node(a[0].p, i + 1), False)))
+    ins = Schema("insp", ["InstructionForm"], {"line_number": ("int",)})
+
+    class AfterSort:  # phase d (dictionary) is a function of the sorted entry list: not the subject here
+        def sym_for(self, ex_, s, it, env, cls):
+            ex_.extra["final_sort"] = st.get("final_sort")
+            raise PathEnd()
+
+    ex.loop_hooks[("check_for_loopcarried_dep", 9)] = AfterSort()
+
+    def run():
+        st.clear()
+        kernel = SymSeq(klen, lambda i: SRef(i, ins))
+        ex.call_method("KernelDG", "check_for_loopcarried_dep", SObj("KernelDG", kernel=kernel, INSTRUCTION_THRESHOLD=50), [kernel, -1, False])
+
+    q = z3.Int("q")
+    paths = ex.explore(run, [klen >= 1, klen < 50, NP >= 0, z3.ForAll([q], SUM(q, 0) == 0)])
+    n = res.add_paths(paths, None, kind="post")
+    ends = [p for p in paths if "final_sort" in p.extra]
+    res.add("reaches-final-sort", [], len(ends) >= 1)
+    for p in ends:
+        fs = p.extra["final_sort"]
+        # entries are sorted as whole tuples (a total order on distinct entries): the final list is a function of the entry SET
+        res.add("final-sort-is-a-total-order-on-entries", p.pc, fs is not None and not fs[0] and set(fs[1]) <= {"reverse"} and "key" not in fs[1])
+    # L: entries are functions of their keys and one entry is kept per key => the set of entries is the image of the key set
+    U = z3.DeclareSort("PathU")
+    key = z3.Function("keyU", U, I)
+    entry = z3.Function("entryU", U, I)
+    E = z3.Function("E", I, I)
+    inA, inB = z3.Function("inA_", U, z3.BoolSort()), z3.Function("inB_", U, z3.BoolSort())
+    x, y = z3.Consts("x y", U)
+    e = z3.Int("e")
+    hyp = [z3.ForAll([x], entry(x) == E(key(x))), z3.ForAll([x], inA(x) == inB(x))]
+    res.add("lemma/entry-set-independent-of-delivery-order", hyp, z3.Exists([x], z3.And(inA(x), entry(x) == e)) == z3.Exists([y], z3.And(inB(y), entry(y) == e)), label="L")
+    return res
+
+
+def search_agreement_unit(res):
+    """P: the search a worker performs for a root (KernelDG._extend_path, real code) is the SAME call as the one the
+    single-process branch performs for that root: all_simple_paths(dg, line, line + offset, <further arguments>) where
+    the further arguments (e.g. a cutoff) are equal terms in both and do not depend on the slice handed to the worker."""
+    ex = Engine([REPO + "/" + KDG])
+    f1, _ = ex.find_method("KernelDG", "check_for_loopcarried_dep")
+    ex.index_loops(f1)
+    f2, _ = ex.find_method("KernelDG", "_extend_path")
+    ex.index_loops(f2)
+    lines = z3.Function("line_no", I, I)
+    ins = Schema("inss", ["InstructionForm"], {"line_number": ("int",)})
+    ins.fn["line_number"] = lines
+    klen, L, off = z3.Ints("klen slice_len offset_")
+    calls = []
+    dgobj = Opaque("dg")
+
+    def asp(ex_, so, a, kw):
+        calls.append((list(a), dict(kw)))
+        return Opaque("paths")
+
+    ex.abstract["nx.algorithms.simple_paths.all_simple_paths"] = asp
+    ex.abstract["create_DG"] = lambda ex_, so, a, kw: dgobj
+    ex.abstract["list"] = lambda ex_, so, a, kw: a[0]
+
+    class Sink:
+        def sym_havoc(self, ex_, tag):
+            return self
+
+        def sym_method(self, ex_, name, args, kw):
+            if name == "extend":
+                return None
+            raise Unsupported(name)
+
+    sig = {}
+
+    def hook(which):
+        class H:
+            def pre_havoc(self, ex_, env):
+                if which == "sequential":
+                    env["all_paths"] = Sink()
+
+            def on_body_start(self, ex_, env, k):
+                calls.clear()
+
+            def on_body_end(self, ex_, env, k):
+                ok = len(calls) == 1 and len(calls[0][0]) >= 3 and calls[0][0][0] is dgobj
+                ex_.oblige(which + "/one-search-per-root-on-the-doubled-graph", ok)
+                if ok:
+                    a, kw = calls[0]
+                    off_t = num_term(ex_.extra["offset"])[0]
+                    ex_.oblige(which + "/search-root-to-its-second-copy", z3.And(num_term(a[1])[0] == lines(k), num_term(a[2])[0] == lines(k) + off_t))
+                    ex_.extra.setdefault("sigs", []).append((which, k, a[3:], kw, list(ex_.pc)))
+        return H()
+
+    class SkipLoop:
+        def sym_for(self, ex_, s, it, env, cls):
+            ex_.extra["offset"] = env["offset"]
+            return None
+
+    class End:
+        def sym_for(self, ex_, s, it, env, cls):
+            raise PathEnd()
+
+    ex.loop_hooks[("check_for_loopcarried_dep", 0)] = SkipLoop()
+    ex.loop_hooks[("check_for_loopcarried_dep", 6)] = hook("sequential")
+    ex.loop_hooks[("check_for_loopcarried_dep", 7)] = End()
+    ex.invariants[("check_for_loopcarried_dep", 6)] = lambda ex_, env, k: z3.BoolVal(True)
+    ex.loop_hooks[("_extend_path", 0)] = hook("worker")
+    ex.invariants[("_extend_path", 0)] = lambda ex_, env, k: z3.BoolVal(True)
+    full = SymSeq(klen, lambda i: SRef(i, ins))
+    selfo = lambda: SObj("KernelDG", kernel=full, INSTRUCTION_THRESHOLD=50)
+
+    def run_seq():
+        ex.call_method("KernelDG", "check_for_loopcarried_dep", selfo(), [full, -1, False])
+
+    def run_worker():
+        ex.extra["offset"] = SNum(off, True)
+        sl = SymSeq(L, lambda i: SRef(i, ins))
+        ex.call_method("KernelDG", "_extend_path", selfo(), [Sink(), sl, dgobj, SNum(off, True)])
+
+    p_seq = ex.explore(run_seq, [klen >= 1, klen < 50])
+    p_wrk = ex.explore(run_worker, [klen >= 50, L >= 0, L <= klen])
+    res.add_paths(p_seq, None, kind="sequential")
+    res.add_paths(p_wrk, None, kind="worker")
+    sseq = [s for p in p_seq for s in p.extra.get("sigs", [])]
+    swrk = [s for p in p_wrk for s in p.extra.get("sigs", [])]
+    res.add("both-searches-reached", [], len(sseq) >= 1 and len(swrk) >= 1)
+    for (_, k1, x1, kw1, pc1) in sseq:
+        for (_, k2, x2, kw2, pc2) in swrk:
+            same_shape = len(x1) == len(x2) and sorted(kw1) == sorted(kw2)
+            res.add("same-further-arguments(shape)", [], same_shape).update(detail=None if same_shape else f"sequential: {len(x1)} extra positional, keywords {sorted(kw1)}; worker: {len(x2)}, {sorted(kw2)}")
+            if not same_shape:
+                continue
+            for v1, v2, nm in [(a, b, f"arg{3 + i}") for i, (a, b) in enumerate(zip(x1, x2))] + [(kw1[n], kw2[n], n) for n in sorted(kw1)]:
+                # equal for every kernel length (>= threshold on the worker side, the sequential term read with the same klen),
+                # every slice and every root: the worker's value may not depend on its slice or differ from the sequential one
+                try:
+                    t1, t2 = num_term(v1)[0], num_term(v2)[0]
+                    hyp = [h for h in pc2 if not ex.has_quant(h)]
+                    res.add(f"same-further-arguments({nm})", hyp, t1 == t2)
+                except Exception:
+                    res.add(f"same-further-arguments({nm})", [], v1 is v2 or v1 == v2)
+    return res
